@@ -35,6 +35,9 @@ impl CompileErrorKind {
             Self::TooManyArguments => "too many arguments in function call".to_string(),
             Self::TooManyUpvalues => "too many captured variables (max 255)".to_string(),
             Self::TooManyGlobals => "too many global variables (max 65535)".to_string(),
+            Self::UnsupportedConstruct(what) => {
+                format!("{} are not supported by the bytecode compiler yet", what)
+            }
             Self::TooManyCallSites => {
                 "too many calls of global functions in one program (max 65535)".to_string()
             }
